@@ -895,7 +895,9 @@ func (vx *Vaxis) handleSequence(seq ansi.Sequence) {
 					return
 				}
 				switch seq.Parameters[1][0] {
-				case 1, 2:
+				case 1, 2, 3:
+					// 3: permanently set, the terminal always works
+					// this way
 					if seq.Parameters[1][0] == 1 {
 						vx.mu.Lock()
 						vx.keepUnicodeCore = true
